@@ -135,6 +135,10 @@ func (u *Unmarshaler) fillSlice(fieldType reflect.Type, value reflect.Value,
 	}
 
 	refValue := reflect.ValueOf(mapValue)
+	if !refValue.IsValid() {
+		// a nil value (e.g. null as a map element), refValue.Type() would panic
+		return newTypeMismatchErrorWithHint(fullName, reflect.Slice.String(), "nil")
+	}
 	if refValue.Kind() != reflect.Slice {
 		return newTypeMismatchErrorWithHint(fullName, reflect.Slice.String(), refValue.Type().String())
 	}
